@@ -36,9 +36,40 @@ class Tracker:
                 return c
         return None
 
+    def build_gdb_shaped(self, spec):
+        """the message as the GDB backend hands it over: a sent message's target carries no interface (serialize_closure only
+        yields the sender id), argument interfaces are the declared ones, arrays carry elements"""
+        from core import wl
+        P = histgen.protocols()
+        pm = P[spec['iface']].msg(spec['name']) if spec['iface'] in P and not (spec['iface'] == 'wl_registry' and spec['name'] == 'bind') else None
+        args = []
+        for i, a in enumerate(spec['args']):
+            k = a[0]
+            pa = pm.args[i] if pm is not None and i < len(pm.args) else None
+            if k == 'int': args.append(wl.Arg.Int(a[1]))
+            elif k == 'uint': args.append(wl.Arg.Int(a[1] & 0xffffffff))
+            elif k == 'fixed': args.append(wl.Arg.Float(a[1] / 256.0))
+            elif k == 'str': args.append(wl.Arg.Null() if a[1] is None else wl.Arg.String(a[1]))
+            elif k == 'obj':
+                decl = pa.interface if pa is not None else None
+                args.append(wl.Arg.Null(decl) if a[2] is None else wl.Arg.Object(wl.UnresolvedObject(a[2], decl if decl is not None else a[1]), False))
+            elif k == 'new': args.append(wl.Arg.Object(wl.UnresolvedObject(a[2], a[1]), True))
+            elif k == 'array': args.append(wl.Arg.Array([wl.Arg.Int(x) for x in range(a[1] // 4)]))
+            elif k == 'fd': args.append(wl.Arg.Fd(a[1]))
+        target = wl.UnresolvedObject(spec['id'], None if spec['sent'] else spec['iface'])
+        tag = spec['conn'] if spec.get('conn') is not None else 'PARSED'
+        return tag, wl.Message(spec['t_us'] / 1e6, target, spec['sent'], spec['name'], tuple(args))
+
     def apply(self, spec):
         line = wire.render(spec, self.dialect, comma=self.comma)
         self.lines.append(line)
+        if self.dialect == 'gdb-shaped':
+            conn_id, msg = self.build_gdb_shaped(spec)
+            self.parser.handle_message(conn_id, msg)
+            rec = self.world.step(spec)
+            self.msgs.append(msg)
+            self.warnings += len(env.log_capture.take())
+            return msg, rec
         conn_id, msg = self.parse.message(line)
         self.parser.handle_message(conn_id, msg)
         rec = self.world.step(spec)
@@ -72,6 +103,8 @@ def _arg_regex(a, obj, name, null_iface, dialect='new'):
     if k == 'new':
         return pre + re.escape('new ' + obj.label())
     if k == 'array':
+        if dialect == 'gdb-shaped':
+            return pre + r'\[[^\[\]]*\]'
         return pre + re.escape('[...]')
     if k == 'fd':
         return pre + re.escape('fd %d' % a[1])
